@@ -43,7 +43,8 @@ ID = "C17"
 RULE = (
     "cases generated from rng([seed, index]): fit_circuit (4-9 methods x 2-4 weights in shuffled order; exact-start "
     "ideal R / RC / (RC) data where several candidates reach the same pseudo chi-squared to the last bit, and noisy mock "
-    "spectra), perform_zhit with 'auto' options (ideal R, C, Q, L spectra = exact ties; noisy mock spectra), "
+    "spectra), perform_zhit with 'auto' options (ideal R, C, Q, L spectra = exact ties across smoothing/interpolation; noisy mock spectra; "
+    "noisy spectra with a narrow window centred on a measured frequency = exact ties across windows only), "
     "evaluate_log_F_ext(num_F_ext_evaluations in {10,20}) + suggest_num_RC for the six linear tests, KK 'cnls' over a "
     "num_RC range (explicit and automatically limited), perform_kramers_kronig_test (thorough), generate_mock_data "
     "(all predefined identifiers + CDCs, seed pairs incl. pairs that agree in their low 8/16 bits). Each analysis case is "
@@ -165,9 +166,19 @@ def _mock_spec(rng, ppd_choices=(5, 7, 10), idents=None):
     return {"mock": ident, "kw": kw}
 
 
-def _case_zhit(rng, tier, tie):
+def _case_zhit(rng, tier, tie, wcell=None):
     c = {"kind": "zhit"}
-    if tie:
+    if tie == "W":
+        # window ties: noisy data (smoothing / interpolation candidates do not tie) and a NARROW window centred exactly on
+        # a measured frequency, so that only that point gets a weight and several scipy windows give bit-identical
+        # weights -> candidates that differ in nothing but the window label tie for the best pseudo chi-squared
+        ppd = int(rng.choice([2, 3])) if wcell != "ffa" or rng.random() < 0.5 else int(rng.choice([5, 10]))
+        spec = _mock_spec(rng, ppd_choices=(ppd,), idents=MOCK_CDCS[:3] + ["CIRCUIT_1", "CIRCUIT_2", "CIRCUIT_5"])
+        spec["kw"].update(log_max_f=4.0, log_min_f=0.0, noise=float(rng.choice([0.05, 0.2, 1.0])))
+        c.update(src="mock-narrow-window", spec=spec, first="window-tie")
+        center = float(rng.choice([1.0, 2.0, 3.0]))  # 10**center is a grid point of logspace(4, 0, 4 * ppd + 1)
+        width = float(rng.choice([0.05, 0.1, 0.2, 0.3] if ppd <= 3 else [0.05, 0.1, 0.15]))  # < 2 x grid spacing
+    elif tie:
         log_max, log_min, ppd = _grid(rng)
         n = int(round((log_max - log_min) * ppd)) + 1
         f = np.logspace(log_max, log_min, n)
@@ -182,6 +193,8 @@ def _case_zhit(rng, tier, tie):
         c.update(src="mock", spec=spec, first="mock")
         center, width = 1.5, 3.0
     cell = str(rng.choice(["aaa", "aaa", "aaa", "afa", "faa", "aaf"])) if tier == "thorough" else "aaa"
+    if tie == "W":
+        cell = wcell or "ffa"
     opts = {
         "smoothing": "auto" if cell[0] == "a" else str(rng.choice(SMOOTH)),
         "interpolation": "auto" if cell[1] == "a" else str(rng.choice(INTERP)),
@@ -353,7 +366,8 @@ def gen_cases(tier, seed):
             (_case_zhit, ("C",)), (_case_fit, (None,)), (_case_cnls, ()),
             (_case_zhit, (None,)), (_case_fit, ("RC",)), (_case_kkext, ()),
             (_case_zhit, ("Q",)), (_case_fit, ("R-far",)), (_case_mock, ()),
-            (_case_kkext_cnls, ()), (_case_kkext, ()), (_case_zhit, (None,)),
+            (_case_kkext_cnls, ()), (_case_kkext, ()), (_case_zhit, ("W", "ffa")),
+            (_case_zhit, ("W", "ffa")), (_case_zhit, ("W", "afa")),
         ]
     else:
         plan = []
@@ -368,6 +382,7 @@ def gen_cases(tier, seed):
                 plan.append((_case_cnls, ()))
             if i % 4 == 1:
                 plan.append((_case_kkext, (True,)))
+        plan += [(_case_zhit, ("W", w)) for w in ("ffa", "ffa", "afa", "faa", "aaa", "ffa")]
         plan += [(_case_cnls, (True,)), (_case_kkext_cnls, ()), (_case_mock, ()), (_case_mock, ())]
     for fn, a in plan:
         add(fn, *a)
@@ -664,6 +679,7 @@ def _run_analysis(case, kind, tmp):
     evals = 0
     fanout = 0
     ties = 0
+    wties = 0
     ref = None
     parent = os.getpid()
     for j, run in enumerate(runs):
@@ -681,6 +697,13 @@ def _run_analysis(case, kind, tmp):
             if r["outcome"] == "ok" and stage in S.VALUES and recs:
                 best = min(float.fromhex(x["v"]) for x in recs if "v" in x)
                 ties = sum(1 for x in recs if "v" in x and float.fromhex(x["v"]) == best)
+                if kind == "zhit":  # ties between candidates that differ ONLY in the window label
+                    grp = {}
+                    for x in recs:
+                        if "v" in x and float.fromhex(x["v"]) == best:
+                            sm_ip = x["t"].rsplit("/", 1)[0]
+                            grp[sm_ip] = grp.get(sm_ip, 0) + 1
+                    wties = max(grp.values()) if grp else 0
             continue
         if run["P"] != 1:
             # evidence that the pool really ran the wrapper in other processes
@@ -738,6 +761,9 @@ def _run_analysis(case, kind, tmp):
     if ties > 1:
         stats[f"{kind}.cases_with_exact_tie_for_best"] = 1
         maxobs[f"{kind}.candidates_tied_with_best"] = float(ties)
+    if wties > 1:
+        stats["zhit.cases_with_window_tie_for_best"] = 1
+        maxobs["zhit.windows_tied_with_best"] = float(wties)
     maxobs[f"{kind}.distinct_completion_orders_per_case"] = float(len(orders))
     maxobs[f"{kind}.distinct_worker_pids_per_case"] = float(len(pids))
     maxobs[f"{kind}.fanout"] = float(fanout)
@@ -763,9 +789,9 @@ def _run_analysis(case, kind, tmp):
             "kind": kind, "input": case.get("src") or case.get("spec"), "cdc": case.get("cdc"), "opts": case["opts"],
             "reference": {k: v for k, v in ref["ident"].items() if k not in ("parameter_table", "num_RCs", "minimizer", "info:method6")} if ref["outcome"] == "ok" else ref.get("exc"),
             "runs": [{"tag": r["tag"], "P": r["P"], "mode": (r.get("sched") or {}).get("mode"), "t": round(x["t"], 2)} for r, x in zip(runs, results)],
-            "fanout": fanout, "distinct_orders": len(orders), "worker_pids": len(pids), "tied_with_best": ties,
+            "fanout": fanout, "distinct_orders": len(orders), "worker_pids": len(pids), "tied_with_best": ties, "windows_tied_with_best": wties,
         },
-        "agg": {"kind": kind, "inconclusive": incon, "ties": ties, "orders": len(orders), "fanout": fanout, "ref_ok": ref["outcome"] == "ok", "src": case.get("src", "mock")},
+        "agg": {"kind": kind, "inconclusive": incon, "ties": ties, "wties": wties, "orders": len(orders), "fanout": fanout, "ref_ok": ref["outcome"] == "ok", "src": case.get("src", "mock")},
     }
 
 
@@ -785,6 +811,7 @@ def finalize(agg):
             "reference_completed": sum(1 for a in cs if a.get("ref_ok")),
             "conclusive": sum(1 for a in cs if a.get("ref_ok") and not a.get("inconclusive")),
             "cases_with_exact_tie": sum(1 for a in cs if a.get("ties", 0) > 1),
+            "cases_with_window_tie": sum(1 for a in cs if a.get("wties", 0) > 1 and a.get("ref_ok") and not a.get("inconclusive")),
             "distinct_completion_orders_total": sum(a.get("orders", 0) for a in cs),
         }
         if not cs or not any(a.get("ref_ok") for a in cs):
@@ -796,6 +823,8 @@ def finalize(agg):
     for kind in ("fit", "zhit"):
         if info[kind]["cases_with_exact_tie"] == 0:
             inconclusive.append(f"{kind}: no case in which several candidates tied exactly for the best pseudo chi-squared (tie scenario not exercised)")
+    if info["zhit"]["cases_with_window_tie"] == 0:
+        inconclusive.append("zhit: no conclusive case in which candidates differing only in the window tied exactly for the best pseudo chi-squared")
     if st.get("mock.same_seed_pairs", 0) < 10:
         inconclusive.append("mock-data clause: fewer than 10 seed pairs compared")
     mon = agg["monitors"]
